@@ -129,7 +129,9 @@ def signature(func, variadic=True, markup=True, safe=False):
        #explicit = tuple(arg_names[:-len(arg_defaults)]) # only return args
 
     # for a partial, the first p_args are now at fixed values
-    _fixed = dict(zip(arg_names[:len(p_args)],p_args))
+    # (for a bound method, 'self' is already taken and is not one of them)
+    _self = 1 if inspect.ismethod(func) and func.__self__ else 0
+    _fixed = dict(zip(arg_names[_self:_self+len(p_args)],p_args))
 
     # deal with the stupid case that the partial always fails
     errors = [i for i in _fixed if i in p_kwds]
